@@ -587,7 +587,8 @@ class _CUR(GreedySelector):
             ):
                 self._orthogonalize(last_selected=c)
 
-        self.pi_ = self._compute_pi(self.X_current_)
+        if self.recompute_every != 0:
+            self.pi_ = self._compute_pi(self.X_current_)
 
         super()._continue_greedy_search(X, y, n_to_select)
 
@@ -767,7 +768,8 @@ class _PCovCUR(GreedySelector):
             ):
                 self._orthogonalize(last_selected=c)
 
-        self.pi_ = self._compute_pi(self.X_current_, self.y_current_)
+        if self.recompute_every != 0:
+            self.pi_ = self._compute_pi(self.X_current_, self.y_current_)
 
         super()._continue_greedy_search(X, y, n_to_select)
 
